@@ -1112,6 +1112,7 @@ DLLIMPORT cfg_value_t *cfg_setopt(cfg_t *cfg, cfg_opt_t *opt, const char *value)
 DLLIMPORT int cfg_opt_setmulti(cfg_t *cfg, cfg_opt_t *opt, unsigned int nvalues, char **values)
 {
 	cfg_opt_t old;
+	char *comment;
 	unsigned int i;
 
 	if (!opt || !nvalues) {
@@ -1120,6 +1121,7 @@ DLLIMPORT int cfg_opt_setmulti(cfg_t *cfg, cfg_opt_t *opt, unsigned int nvalues,
 	}
 
 	old = *opt;
+	old.comment = NULL;	/* the annotation stays with opt, not with the saved values */
 	opt->nvalues = 0;
 	opt->values = NULL;
 
@@ -1128,7 +1130,10 @@ DLLIMPORT int cfg_opt_setmulti(cfg_t *cfg, cfg_opt_t *opt, unsigned int nvalues,
 			continue;
 
 		/* ouch, revert */
+		comment = opt->comment;
+		opt->comment = NULL;
 		cfg_free_value(opt);
+		opt->comment = comment;
 		opt->nvalues = old.nvalues;
 		opt->values = old.values;
 		opt->flags &= ~(CFGF_RESET | CFGF_MODIFIED);
